@@ -24,6 +24,8 @@ def check_c04(sess, st, res, cfg):
                       st['changes'])
     got = res['gate']
     sess.probe('gate:%s' % want)
+    if want == 'unspecified':
+        return None
     if res.get('host_failed'):
         sess.probe('host-error-during-gate')
         if got == 'pass' and want != 'pass':
